@@ -170,11 +170,15 @@ add_binfunc!(add_int_pow, pow, X_INT, Int, X_INT, |a: &LazyBigint,
             rt.clone(),
         )?)
     } else {
-        rt.can_allocate_by(|| {
-            b.to_usize()
-                .zip(a.bits().to_usize())
-                .map(|(b, a_bits)| (a_bits / 8) * b)
-        })?;
+        // bytes the result needs; an exponent (or product) beyond usize is more than any limit
+        let needed = b
+            .to_usize()
+            .zip(a.bits().to_usize())
+            .and_then(|(b, a_bits)| (a_bits / 8).checked_mul(b));
+        let trivial_base = a.is_zero() || a.is_one() || (-a.clone()).is_one();
+        if !trivial_base {
+            rt.can_allocate(needed.unwrap_or(usize::MAX / 2))?;
+        }
         Ok(XValue::Int(a.clone().pow(b.clone())))
     }
 ));
